@@ -4,6 +4,7 @@ import (
 	"fmt"
 	"go/types"
 	"hash/fnv"
+	"os"
 	"sort"
 	"sync"
 	"time"
@@ -27,6 +28,8 @@ type Config struct {
 	Workers      int
 	Seed         int64
 	Samples      int
+	BudgetS      float64 // wall-clock budget per harness (0: none); exceeding it truncates
+	Progress     bool
 	MaxViolPerLabel int
 
 	overrides map[string]*ssa.Function
@@ -94,11 +97,13 @@ type pathState struct {
 	pcLen      int
 	trivial    int
 	symAsserts int
+	pruned     int
 }
 
 type workItem struct {
 	prefix    []int32
 	unchecked bool
+	model     term.Model // a model of the path condition of prefix (nil: none)
 }
 
 // Stats aggregated over a harness exploration.
@@ -111,12 +116,14 @@ type Stats struct {
 	QuerySat     int
 	QueryUnsat   int
 	QueryUnknown int
+	Pruned       int // infeasible alternatives pruned at decision time
 	Trivial      int // assertions closed by the simplifier without a query
 	AssertsSym   int // assertions decided by the solver
 	SolveTime    time.Duration
 	Reached      map[string]int
 	AssertLabels map[string]int
 	Truncated    bool
+	BudgetHit    bool
 	Funcs        map[string]bool
 	Stubs        map[string]bool
 	Unsupported  []string
@@ -208,6 +215,31 @@ func (e *Explorer) done() {
 // Run explores all paths of the harness with cfg.Workers workers.
 func (e *Explorer) Run() error {
 	e.push(workItem{})
+	t0 := time.Now()
+	stopTick := make(chan struct{})
+	defer close(stopTick)
+	go func() {
+		tk := time.NewTicker(10 * time.Second)
+		defer tk.Stop()
+		for {
+			select {
+			case <-stopTick:
+				return
+			case <-tk.C:
+				e.mu.Lock()
+				if e.Cfg.Progress {
+					fmt.Fprintf(os.Stderr, "  [%s %.0fs] paths=%d queue=%d active=%d %v\n", e.Name, time.Since(t0).Seconds(), e.Stats.Paths, len(e.queue), e.active, e.Stats.ByOutcome)
+				}
+				if e.Cfg.BudgetS > 0 && time.Since(t0).Seconds() > e.Cfg.BudgetS && !e.stop {
+					e.Stats.Truncated = true
+					e.Stats.BudgetHit = true
+					e.stop = true
+					e.cond.Broadcast()
+				}
+				e.mu.Unlock()
+			}
+		}
+	}()
 	var wg sync.WaitGroup
 	errs := make(chan error, e.Cfg.Workers)
 	for i := 0; i < e.Cfg.Workers; i++ {
@@ -271,6 +303,31 @@ func NewMachine(prog *ssa.Program, cfg *Config) (*Machine, error) {
 		}
 	}
 	m.doneCh = make(chan struct{}, 1)
+	if os.Getenv("GOSYM_SLOW") != "" {
+		sol.KeepHist = true
+		sol.SlowHook = func(d time.Duration, res term.Result) {
+			if d > 8*time.Second {
+				f, _ := os.CreateTemp("", "slowq-*.smt2")
+				for _, lvl := range sol.Hist {
+					for _, l := range lvl {
+						fmt.Fprintln(f, l)
+					}
+				}
+				fmt.Fprintln(f, "(check-sat)")
+				f.Close()
+				fmt.Fprintf(os.Stderr, "SLOWDUMP %s\n", f.Name())
+			}
+			var ch []string
+			if m.ps != nil {
+				for _, in := range m.ps.inputs {
+					if in.Kind == "choose" {
+						ch = append(ch, in.Name+"="+in.Val)
+					}
+				}
+			}
+			fmt.Fprintf(os.Stderr, "SLOW %.1fs %v choices=%v at %s\n", d.Seconds(), res, ch, m.stackString())
+		}
+	}
 	return m, nil
 }
 
@@ -297,8 +354,11 @@ func (m *Machine) runPath(e *Explorer, w workItem) {
 	m.resetPath()
 	ps := &pathState{prefix: w.prefix, unchecked: w.unchecked, asserts: map[string]bool{}}
 	ps.model = term.Model{}
+	if w.model != nil {
+		ps.model = w.model
+	}
 	ps.ev = term.NewEvaluator(ps.model)
-	ps.modelValid = true // empty PC: the all-zero model satisfies it
+	ps.modelValid = true // empty PC: any model satisfies it; addPC re-validates as the prefix is replayed
 	m.ps = ps
 	m.expl = e
 	base := m.sol.Level()
@@ -351,6 +411,7 @@ func (m *Machine) runPath(e *Explorer, w workItem) {
 		st.AssertLabels[a]++
 	}
 	st.Trivial += ps.trivial
+	st.Pruned += ps.pruned
 	st.AssertsSym += ps.symAsserts
 	switch out.Kind {
 	case "unsupported":
@@ -491,10 +552,28 @@ func (m *Machine) decide(site string, conds []*term.T) int {
 		if i == k || c.IsFalse() {
 			continue
 		}
+		// feasibility of the alternative is decided now; its model seeds the new path
+		m.sol.Push()
+		m.sol.Assert(c)
+		r, _ := m.sol.Check()
+		var mod term.Model
+		if r == term.Sat {
+			var err error
+			mod, err = m.sol.Model()
+			if err != nil {
+				m.sol.Pop()
+				panic(pathAbort{"engine", "model: " + err.Error()})
+			}
+		}
+		m.sol.Pop()
+		if r == term.Unsat {
+			ps.pruned++
+			continue
+		}
 		p := make([]int32, len(ps.trace)+1)
 		copy(p, ps.trace)
 		p[len(ps.trace)] = int32(i)
-		m.expl.push(workItem{prefix: p, unchecked: true})
+		m.expl.push(workItem{prefix: p, unchecked: r != term.Sat, model: mod})
 	}
 	ps.trace = append(ps.trace, int32(k))
 	m.addPC(conds[k])
@@ -549,6 +628,12 @@ func (m *Machine) assert(c *term.T, label string, known *term.T, knownID string)
 	ps.asserts[label] = true
 	if c.IsTrue() {
 		ps.trivial++
+		return
+	}
+	if ps.pos < len(ps.prefix) {
+		// still replaying the decision prefix: this assertion was decided, under the same
+		// path condition, by the path that spawned this one
+		m.addPC(c)
 		return
 	}
 	neg := m.tb.Not(c)
